@@ -110,7 +110,13 @@ OverlapNow(e) == IF NoOverlap(areas) /\ ~NoOverlap(e.areas) THEN {"areas-overlap
 
 Next == /\ l <= Len(Rec)
         /\ LET e == Rec[l]
-               b == IF e.hasobs /\ e.ev # "new" THEN Bad(e) \cup OverlapNow(e) ELSE (IF e.k = "crash" THEN {"crash"} ELSE {}) IN
+               \* a machine built from an ELF image: the scenario knows the segments it wrote into the file; each must be an area
+               \* with the permissions of its flags (C09: "loaded from an ELF text segment therefore cannot be modified")
+               bn == IF e.ev = "new" /\ e.hasobs /\ e.k = "ok"
+                     THEN (IF \A j \in 1..Len(e.exp) : \E i \in 1..Len(e.areas) : e.areas[i].start = e.exp[j][1] /\ e.areas[i].prot = e.exp[j][2]
+                           THEN {} ELSE {"elf-segment-permissions"})
+                     ELSE {}
+               b == IF e.hasobs /\ e.ev # "new" THEN Bad(e) \cup OverlapNow(e) ELSE (IF e.k = "crash" THEN {"crash"} ELSE bn) IN
              /\ IF b = {} THEN TRUE ELSE PrintT(<<"VERDICT", e.sc, e.i, e.ev, b>>)
              /\ areas' = IF e.hasobs THEN e.areas ELSE areas
         /\ l' = l + 1
